@@ -214,6 +214,18 @@ def check(run, prog, tier):
                 svc_ok = any(x[0] == "call" and x[1][0] == "bound" and x[1][2].endswith("from_offer_entry") for x in a)
                 okc = addr in a and svc_ok
         run.ob("R1", f"{fi.qual}:keyed-by-source-and-service", okc, loc(fi), f"found_services.{callee}() is keyed by (source address, Service.from_offer_entry(entry))")
+        # ... and that is all an Offer / StopOffer does to the store: what one source says never touches what was learnt from
+        # another one ("for each pair of service instance and source address")
+        other = None
+        for p in eng.paths(fi, recv=DISC):
+            for e in p.events:
+                if e.kind == "call" and e.targets and e.targets[0].cls is not None and e.targets[0].cls.qual == TS \
+                        and e.recv == ("attr", ("self", DISC), "found_services") and e.targets[0].qual != tgt:
+                    other = other or e
+        run.ob("R1", f"{fi.qual}:touches-only-the-sender's-record", other is None, loc(fi, other.node if other is not None else None),
+               f"the only store operation is found_services.{callee}(source, service)" if other is None else
+               f"{fi.name} also calls found_services.{other.targets[0].name}(...), which is not limited to the record of the sending source: "
+               "a (Stop)Offer from one host changes what is known about the same service at another host")
 
 
 def _unwrap(tm):
